@@ -51,14 +51,16 @@ def gen_fn(rng, allow_names):
     if ndef == 0 and nreq >= 1 and rng.random() < 0.15:
         d["decl"] = "template<typename T> void %s(T a0%s)" % (name, "".join(", %s a%d" % (t, j) for j, t in enumerate(sig[1:], 1)))
         d["cxx_template"] = []
-        for t in rng.sample(["int", "double", "long"], rng.randint(1, 2)):
+        # (a class of another namespace as template argument: the default suffix is the flattened QUALIFIED name, so two classes
+        #  of the same name in different namespaces give different entry points)
+        for t in rng.sample(["int", "double", "long", "tna::Item", "tnb::Item"], rng.randint(1, 3)):
             e = {"instantiation": "<%s>" % t}
             ex = None
             if rng.random() < 0.3:
-                ex = "_T" + t
+                ex = "_T" + t.replace("::", "")
                 e["format"] = {"template_suffix": ex}
             d["cxx_template"].append(e)
-            f["tmpl"].append((ex, t))
+            f["tmpl"].append((ex, t.replace("::", "_")))
     elif nreq >= 1 and rng.random() < 0.15:
         gs = []
         d["fortran_generic"] = []
@@ -147,6 +149,8 @@ def gen_library(rng):
                           "declarations": [d for _, d in fs]})
             scopes.append(("/Vec_int", "Vec_int_", "vec_int_", [f for f, _ in fs]))
             scopes.append(("/Vec_double", "Vec_double_", "vec_double_", [f for f, _ in fs]))
+    # two classes of the same name for the template arguments (no members: they add no function names)
+    decls = [{"decl": "namespace tna", "declarations": [{"decl": "class Item"}]}, {"decl": "namespace tnb", "declarations": [{"decl": "class Item"}]}] + decls
     lib = {"library": "nam", "cxx_header": "nam.hpp", "options": {"wrap_python": True, "wrap_lua": True}, "declarations": decls}
     if flat:
         lib["options"]["F_flatten_namespace"] = True
